@@ -8,6 +8,7 @@
 mod c01;
 mod c01b;
 mod c01c;
+mod c01d;
 mod facts_nested;
 mod c02;
 mod c03;
@@ -33,6 +34,7 @@ mod c09;
 mod c10;
 mod c12;
 mod c17;
+mod c19;
 mod c20;
 mod alpha_index;
 mod join;
@@ -64,6 +66,8 @@ fn main() {
     all.extend(c01::witnesses());
     all.extend(c01b::witnesses());
     all.extend(c01c::witnesses());
+    all.extend(c01d::witnesses());
+    all.extend(c01d::open_finding_witnesses());
     all.extend(facts_nested::witnesses());
     all.extend(c02::witnesses());
     all.extend(c03::witnesses());
@@ -90,6 +94,7 @@ fn main() {
     all.extend(c10::witnesses());
     all.extend(c12::witnesses());
     all.extend(c17::witnesses());
+    all.extend(c19::witnesses());
     all.extend(c20::witnesses());
     all.extend(c20::open_finding_witnesses());
     all.extend(alpha_index::witnesses());
